@@ -30,6 +30,12 @@ const (
 	stressFlush      = 0 // collectors off, tight-loop flusher next to the writers
 	stressIndexGC    = 1 // CID primary (has no primary collector): index GC cycles every 0.1-1 ms
 	stressAppendOnly = 2 // multihash primary with both collectors, keys only ever added (nothing superseded)
+	// stressRelocation: a prepared store whose primary files are low-use, one
+	// or two explicit primary GC cycles that relocate their survivors, and
+	// goroutines that put brand-new keys into the same buckets meanwhile. No
+	// flush happens during the concurrent phase, so nothing is reclaimed under
+	// a caller (the recorded finding KF-C06 needs a flush and a second cycle).
+	stressRelocation = 3
 )
 
 // StressCase is a free-running volume case with exclusive key ownership.
@@ -53,6 +59,26 @@ type stressStats struct {
 const stressRuleText = "Volume sub-campaign (free-running, no scheduler, no point handler): 4-8 goroutines x 10-100 rounds of a drawn list of Put/Remove/Get/Has/GetSize calls, each goroutine the only user of its own keys (keys of different goroutines share buckets, index files and primary files), next to a tight-loop or ~100us Flush caller and the store's periodic flusher; 8..20 index bits, index files of 16 bytes..4 KiB; oracle = the result of every call is exactly what the owner's own sequential model says, a final read of every key, the same after close/reopen, again after reopening without the saved bucket table (index rescan), and the independent fsck of the closed directory"
 
 func genStress(t *rapid.T, mode int) StressCase {
+	if mode == stressRelocation {
+		c := StressCase{Mode: mode}
+		c.Cfg = Config{Primary: store.MultihashPrimary, Bits: 8, FileCache: []int{0, 2, 512}[rapid.IntRange(0, 2).Draw(t, "filecache")]}
+		c.Cfg.PrimSize = []uint32{256, 1024, 4096}[rapid.IntRange(0, 2).Draw(t, "relocprim")]
+		c.Cfg.IdxSize = []uint32{256, 4096, 0}[rapid.IntRange(0, 2).Draw(t, "relocidx")]
+		// One or two buckets: Keys[0..1] only carry the bucket bytes.
+		base := rapid.SliceOfN(rapid.Byte(), 4, 4).Draw(t, "base")
+		c.Keys = []KeySpec{{Digest: append([]byte{}, base...)}}
+		if rapid.Bool().Draw(t, "twobuckets") {
+			b2 := append([]byte{}, base...)
+			b2[0] ^= 0x21
+			c.Keys = append(c.Keys, KeySpec{Digest: b2})
+		}
+		c.Rounds = rapid.IntRange(60, 400).Draw(t, "prefixrecords")
+		nw := rapid.IntRange(1, 4).Draw(t, "workers")
+		c.Workers = make([][]Op, nw)
+		c.GCUS = []int{50, 85, 100}[rapid.IntRange(0, 2).Draw(t, "lowuse")] // reused: low-use threshold of the cycles
+		c.SyncUS = rapid.IntRange(1, 2).Draw(t, "cycles")                   // reused: number of cycles
+		return c
+	}
 	c := StressCase{Mode: mode}
 	c.Cfg = genConfig(t, cfgGenOpts{smallBits: true, smallFiles: true})
 	c.Cfg.Immutable = false
@@ -111,6 +137,9 @@ type stressOwner struct {
 }
 
 func runStress(c StressCase, fsckOnly bool) (st stressStats, v *Violation) {
+	if c.Mode == stressRelocation {
+		return runRelocStress(c, fsckOnly)
+	}
 	dir := newScratch("stress")
 	defer os.RemoveAll(dir)
 	gcI := time.Duration(c.GCUS) * time.Microsecond
@@ -389,9 +418,167 @@ func runStressCampaign(t *testing.T, ev *Evidence, modes []int, n int, fsckOnly 
 		}
 		c := genStress(rt, modes[rapid.IntRange(0, len(modes)-1).Draw(rt, "mode")])
 		st, v := runStress(c, fsckOnly)
-		ev.Record(c, st.sharedBucket && st.calls > 50 && (c.Flusher > 0 || c.GCUS > 0), stressClasses(c, st)...)
+		ev.Record(c, st.sharedBucket && (c.Mode == stressRelocation || st.calls > 50 && (c.Flusher > 0 || c.GCUS > 0)), stressClasses(c, st)...)
 		if v != nil && ev.Report(v, c) {
 			rt.Fatalf("%v", v)
 		}
 	})
+}
+
+// runRelocStress: see stressRelocation. Keys are generated on the fly: the
+// bucket bytes of c.Keys[i], an owner byte, a counter, padded to 10 bytes
+// (equal length, hence prefix-free).
+func runRelocStress(c StressCase, fsckOnly bool) (st stressStats, v *Violation) {
+	dir := newScratch("reloc")
+	defer os.RemoveAll(dir)
+	s, err := openStore(dir, c.Cfg)
+	if err != nil {
+		panic(infraError{err})
+	}
+	mp := mhPrimaryOf(s)
+	if mp == nil {
+		panic(infraError{fmt.Errorf("relocation stress needs the multihash primary")})
+	}
+	mkKey := func(owner, n int) []byte {
+		b := c.Keys[n%len(c.Keys)].Digest
+		d := []byte{b[0], b[1], b[2], b[3], byte(owner), byte(n), byte(n >> 8), byte(n >> 16), 0x5a, 0xa5}
+		return KeySpec{Digest: d, Code: 0x00}.Encode(c.Cfg.Primary, false)
+	}
+	type kv struct {
+		key []byte
+		val []byte
+	}
+	var expect []kv     // must be present with this value
+	var absent [][]byte // must be absent
+	// Prefix: records, three of four removed, everything flushed.
+	for i := 0; i < c.Rounds; i++ {
+		k, val := mkKey(0xff, i), valueFor(i, 40+i%37, false)
+		if err := s.Put(k, val); err != nil {
+			closeQuietly(s)
+			return st, nil // C01's subject
+		}
+		if i%4 == 0 {
+			expect = append(expect, kv{k, val})
+		} else {
+			absent = append(absent, k)
+		}
+	}
+	if err := s.Flush(); err != nil {
+		closeQuietly(s)
+		return st, nil
+	}
+	for _, k := range absent {
+		s.Remove(k)
+	}
+	if err := s.Flush(); err != nil {
+		closeQuietly(s)
+		return st, nil
+	}
+	pc := newPointCounter()
+	pc.install()
+	var first atomic.Pointer[Violation]
+	gcDone := make(chan struct{})
+	var wg sync.WaitGroup
+	puts := make([][]kv, len(c.Workers))
+	for w := range c.Workers {
+		w := w
+		wg.Add(1)
+		go func() {
+			defer wg.Done()
+			defer func() {
+				if r := recover(); r != nil {
+					first.CompareAndSwap(nil, stressPanic("worker", r))
+				}
+			}()
+			for n := 0; n < 20000; n++ {
+				select {
+				case <-gcDone:
+					if n > 50 {
+						return
+					}
+				default:
+				}
+				k, val := mkKey(w, n), valueFor(w*100000+n, 3+n%9, false)
+				if err := s.Put(k, val); err != nil {
+					first.CompareAndSwap(nil, viol("volume-error|put|"+errClass(err), n, "Put of a new key next to a relocating GC cycle returned %v", err))
+					return
+				}
+				puts[w] = append(puts[w], kv{k, val})
+			}
+		}()
+	}
+	func() {
+		defer close(gcDone)
+		defer func() {
+			if r := recover(); r != nil {
+				first.CompareAndSwap(nil, stressPanic("gc", r))
+			}
+		}()
+		for i := 0; i < c.SyncUS; i++ {
+			mp.GC(bg, int64(c.GCUS)) // an error return of a cycle is not a violation
+		}
+	}()
+	wg.Wait()
+	pc.uninstall()
+	relocs := pc.get("pgc.reap.relocate")
+	st.calls = int64(relocs)
+	st.sharedBucket = relocs > 0
+	for _, p := range puts {
+		st.flushes += int64(len(p))
+		expect = append(expect, p...)
+	}
+	if v = first.Load(); v != nil && !fsckOnly {
+		closeQuietly(s)
+		return st, v
+	}
+	check := func(s *store.Store, phase string) *Violation {
+		return guard(0, "volume-"+phase, func() *Violation {
+			for _, e := range expect {
+				got, found, err := s.Get(e.key)
+				switch {
+				case err != nil:
+					return viol("volume-error|"+phase+"|"+errClass(err), 0, "Get of a key that was put without error returned %v [%s]", err, phase)
+				case !found:
+					return viol("volume-lost-key|"+phase+"|absent", 0, "key %x was put without error and never removed (%d relocations ran meanwhile) but is not found [%s]", e.key, relocs, phase)
+				case !bytes.Equal(got, e.val):
+					return viol("volume-wrong-value|"+phase+"|other-value", 0, "key %x reads %s, was put as %s [%s]", e.key, shortBytes(got), shortBytes(e.val), phase)
+				}
+			}
+			for _, k := range absent {
+				if _, found, err := s.Get(k); err == nil && found {
+					return viol("volume-resurrected-key|"+phase+"|present", 0, "key %x was removed and flushed before the GC cycle but is found [%s]", k, phase)
+				}
+			}
+			return nil
+		})
+	}
+	if !fsckOnly {
+		if v = check(s, "final"); v != nil {
+			closeQuietly(s)
+			return st, v
+		}
+	}
+	s.Flush()
+	closeQuietly(s)
+	if fsckOnly {
+		if _, clause, detail := fsck(fsckInput{Dir: dir, Cfg: c.Cfg, UseSnap: true}); clause != "" {
+			return st, viol("fsck|volume-after-close|"+clause, 0, "%s", detail)
+		}
+		return st, nil
+	}
+	for _, phase := range []string{"after-reopen", "after-rescan"} {
+		if phase == "after-rescan" {
+			os.Remove(filepath.Join(dir, idxBase+".buckets"))
+		}
+		s2, err := openStore(dir, c.Cfg)
+		if err != nil {
+			return st, viol("volume-error|"+phase+"|open-"+errClass(err), 0, "reopening the directory (%s) failed: %v", phase, err)
+		}
+		v = check(s2, phase)
+		closeQuietly(s2)
+		if v != nil {
+			return st, v
+		}
+	}
+	return st, nil
 }
